@@ -258,14 +258,28 @@ def eval_terms(prop, terms, rundir, imports):
     nshards = max(1, min(16, (len(uniq) + 39) // 40))
     shards = [uniq[i::nshards] for i in range(nshards)]
     def one(k):
-        path = os.path.join(rundir, "cases_%s_%d.v" % (prop, k))
+        k, res, out = one_terms(k, shards[k], "")
+        if res is None and "Error" not in out:
+            # the evaluator died without a Coq error (killed under memory pressure / timed out on a loaded machine): an
+            # infrastructure failure, not a disagreement - evaluate the same terms again in four smaller pieces, one after the other
+            parts, acc = [shards[k][i::4] for i in range(4)], {}
+            for j, part in enumerate(parts):
+                if not part: continue
+                _, r, o = one_terms(k, part, "_retry%d" % j)
+                if r is None:
+                    return k, None, "shard %d (retried in 4 pieces, piece %d failed again)\n%s" % (k, j, o[-3000:])
+                acc.update(zip(part, r))
+            return k, [acc[t] for t in shards[k]], "retried"
+        return k, res, out
+    def one_terms(k, terms_k, suffix):
+        path = os.path.join(rundir, "cases_%s_%d%s.v" % (prop, k, suffix))
         with open(path, "w") as f:
             f.write("From Coq Require Import ZArith List Floats.\nImport ListNotations.\n")
             for imp in imports:
                 f.write("From Tevec Require Import %s.\n" % imp)
             f.write("Set Printing Width 100000000.\nSet Printing Depth 100000000.\nOpen Scope Z_scope.\n")
             f.write("Definition batch : list (list Z) := [\n")
-            f.write(";\n".join(shards[k]))
+            f.write(";\n".join(terms_k))
             f.write("].\nEval vm_compute in batch.\n")
         rc, out = sh(["coqc", "-noglob", "-Q", COQ, "Tevec", path], timeout=2400)
         if rc != 0:
@@ -277,8 +291,8 @@ def eval_terms(prop, terms, rundir, imports):
         res = []
         for inner in re.findall(r"\[([^\[\]]*)\]", body[1:-1]):
             res.append([int(x) for x in re.findall(r"-?\d+", inner)])
-        if len(res) != len(shards[k]):
-            return k, None, "shard %d: %d results for %d terms\n%s" % (k, len(res), len(shards[k]), out[:2000])
+        if len(res) != len(terms_k):
+            return k, None, "Error: shard %d: %d results for %d terms\n%s" % (k, len(res), len(terms_k), out[:2000])
         return k, res, out
     results = {}
     with concurrent.futures.ThreadPoolExecutor(max_workers=16) as ex:
